@@ -260,4 +260,27 @@ theorem toPython_denotes_partial (a : Arguments) (h : wellFormed a)
   rw [h1, h2]
   cases a; simp
 
+/-! ### `Arguments::defaults()` -/
+
+/-- The iterator helper `Arguments::defaults()` yields exactly the `defaults` list of the
+    Python-style form; a value is yielded iff it is the default of a positional(-only) parameter;
+    and read the Python way ("they correspond to the last n arguments") against the positional
+    parameters it gives every parameter exactly its own default back. -/
+theorem defaults_spec (a : Arguments) :
+    defaults a = (toPython a).defaults ∧
+    (∀ d, d ∈ defaults a ↔ ∃ p ∈ a.posonly ++ a.args, p.default = some d) ∧
+    (wellFormed a →
+      attachLast ((a.posonly ++ a.args).map (·.arg)) (defaults a) = a.posonly ++ a.args) := by
+  refine ⟨by simp [defaults, toPython_eq], ?_, ?_⟩
+  · intro d
+    simp only [defaults, List.mem_filterMap]
+  · intro h
+    have hle := filterMap_length_le (a.posonly ++ a.args)
+    unfold defaults
+    rw [attachLast_eq_zip _ _ (by rw [List.length_map]; exact hle)]
+    simpa using zip_trailing _ h
+
+example : defaults ⟨[⟨⟨1, none⟩, none⟩, ⟨⟨2, none⟩, some 5⟩], [⟨⟨3, some 9⟩, some 6⟩], none,
+    [⟨⟨4, none⟩, some 7⟩], none⟩ = [5, 6] := by decide
+
 end PV.C14
